@@ -164,7 +164,26 @@ def ape_variants(rng):
            ("ape-only-header", ape_tag(good, footer=False)),
            ("ape-dup-key", ape_tag([ape_item(b"Title", b"x"), ape_item(b"TITLE", b"y")])),
            ("ape-magic-only", b"APETAGEX"), ("ape-magic-short", b"APETAGEX" + b"\xd0\x07\0\0" + b"\x20\0\0")]
+    # size fields below the 32 bytes of the footer on real items, footer-only tags, and headers (for the front of a file) whose
+    # small size makes `__fill_missing` find a "footer" at offset `size`: the header itself (0), its reserved bytes (24)
+    out.append(("ape-size<32-items", ape_tag(good, size_delta=-(len(b"".join(good)) + rng.choice([1, 8, 24, 32])))))
+    out.append(("ape-size<32-noheader", ape_tag(good, header=False, size_delta=-(len(b"".join(good)) + rng.choice([1, 20, 32])))))
+    out.append(("ape-size=32", ape_tag(good, size_delta=-len(b"".join(good)))))
+    hdr = ape_tag(good, footer=False)[:32]
+    out.append(("ape-hdr-size0", hdr[:12] + struct.pack("<I", 0) + hdr[16:]))
+    out.append(("ape-hdr-size24-magic-in-reserved", hdr[:12] + struct.pack("<I", 24) + hdr[16:24] + b"APETAGEX"))
+    out.append(("ape-hdr-size24", hdr[:12] + struct.pack("<I", 24) + hdr[16:]))
+    out.append(("ape-hdr-size40-footer", hdr[:12] + struct.pack("<I", 40) + hdr[16:] + b"12345678" + b"APETAGEX" + b"\0" * 24))
     return out
+
+
+class BufferedLike(io.BytesIO):
+    """io.BytesIO that refuses read(n < -1) with ValueError like a file opened by name"""
+
+    def read(self, n=-1):
+        if n is not None and n < -1:
+            raise ValueError("read length must be non-negative or -1")
+        return io.BytesIO.read(self, n)
 
 
 # ---------------------------------------------------------------- inputs
@@ -279,7 +298,7 @@ def inputs(ctx):
             if kind in APE_KINDS or kind == "MP3" or rng.random() < 0.15:
                 for la, a in apes:
                     out.append((kind, lab + "+back:" + la, small + a))
-                for la, a in rng.sample(apes, 4):
+                for la, a in rng.sample(apes, 4) + [x for x in apes if x[0].startswith("ape-hdr-")]:
                     out.append((kind, lab + "+front:" + la, a + small))
                 la, a = rng.choice(apes)
                 l1, v1 = rng.choice(v1s)
@@ -299,6 +318,8 @@ def inputs(ctx):
         out.append(("APEv2File", "alone:" + la, a))
         out.append(("APEv2File", "pad+" + la, b"\1" * 300 + a))
         out.append(("APEv2File", "pad+" + la + "+v1", b"\1" * 300 + a + v1s[0][1]))
+        if la.startswith("ape-hdr-") or la in ("ape-good", "ape-size<32", "ape-only-header"):
+            out.append(("APEv2File", "front:" + la, a + b"\1" * 300))
     out.append(("MP3", "empty", b""))
     # IFF / DSF with hand-made ID3 chunks
     for lab, d in bases.get("AIFF", [])[:2]:
@@ -382,6 +403,15 @@ def run(ctx):
             ctx.violation("ftype:%s:%s" % (target, type(r).__name__),
                           "%s(fileobj) raises %s (%s), not a MutagenError" % (target, type(r).__name__, str(r)[:80]), case)
             continue
+        if "ape-" in label and (target == kind or target == "APEv2File"):
+            # the same bytes through an object that refuses read(n < -1) like a file opened by name: `_APEv2Data` has no read
+            # with a negative length (the model reads natural numbers), so the outcome is the same
+            kb, rb = timed(lambda: cls(BufferedLike(data)), 30)
+            realb = "hang" if kb == "hang" else ("ok" if kb == "ok" else classify(rb))
+            ctx.hist["ape-buffered-like:" + ("same" if realb == real else "differs")] += 1
+            if realb != real:
+                ctx.violation("ftype:%s:negative-read-length" % target, "%s(fileobj) on an object with the read() of a file opened by name: %s (%s), "
+                              "on io.BytesIO: %s" % (target, realb, str(rb)[:60] if kb == "exc" else "", real), case)
         if model is None:
             continue
         ctx.traces_validated += 1
